@@ -11,8 +11,9 @@ META = dict(
     explanation='Path-wise symbolic execution (engine/symir.py, z3) of the real CommonLoop timer code (addTimer / deleteTimer / handleExpiredTimers / getWaitTime with std::push_heap/pop_heap/make_heap), TimerEventImpl, Cabinet and ObjectPool. '
                 'CommonLoop is instantiated through a sequential test double that only stubs the pure-virtual back-end entry points; the monotonic clock is a harness-level definition of steady_clock::now() (virtual time, no source hook needed). '
                 'Timer modes, what timer 0 does inside its callback (nothing / disable, enable or destroy another timer / restart itself) and a script of steps (clock advance by boundary amounts incl. several periods late followed by a loop pass; enable; disable; destroy; re-initialize) are symbolic. '
-                'Ghost per timer (enabled-at, invocations) checks: never before t+k*d, no period skipped after a pass, deadline order within a pass, nothing fires after disable/destroy, one-shot disabled in its callback, isEnabled() consistent, no bookkeeping left behind.',
-    bounds='2 timers with 2 symbolic steps and 3 timers (two sharing deadlines) with 1 step in the quick tier; 3 / 2 steps in the thorough tier; intervals 10/10/15 ms, clock advances from {9,10,11,25,47} ms',
-    outside='symbolic interval values (heap comparisons on symbolic deadlines fork too widely for the path-wise engine); eventx::TimerPool and TimerFd; interval 0; 2^64 ms wrap; the real epoll/select wait',
+                'Ghost per timer (enabled-at, invocations) checks: never before t+k*d, no period skipped after a pass, deadline order within a pass, nothing fires after disable/destroy, one-shot disabled in its callback, isEnabled() consistent, no bookkeeping left behind.'
+                ' Extended: one timer with a fully symbolic interval (1 ms .. 2^34 ms, one-shot or persistent) is never early and fires at t+d / t+2d; eventx::TimerPool (doAfter / doEvery / cancel / cleanup) runs on the same loop double reported as running, with one task cancelling another from inside its callback in the same pass.',
+    bounds='2 timers with 2 symbolic steps and 3 timers (two sharing deadlines) with 1 step in the quick tier; 3 / 2 steps in the thorough tier; intervals 10/10/15 ms, clock advances from {9,10,11,25,47} ms; single timer: any interval up to 2^34 ms; TimerPool: 2 tasks (20 / 21 ms), 2 clock advances from {19,20,21,60}',
+    outside='multi-timer scripts with symbolic interval values (heap comparisons on symbolic deadlines fork too widely for the path-wise engine); TimerFd; interval 0; 2^64 ms wrap; the real epoll/select wait',
     assumptions=['the loop pass order handleExpiredTimers(); handleNextFunc() of the real back ends', 'a timer is not destroyed from inside its own callback (documented misuse, asserted by the library)'],
     trusted_base=['clang++-14 -O1 IR', 'engine/symir.py', 'z3', 'harness/vp_seqloop.hpp'])
